@@ -218,7 +218,11 @@ class SigmaFilter(SigmaRuleBase):
         matches = []
         for reference in self.filter.rules:
             try:
-                matches.append(SigmaCollection([rule])[reference.reference])
+                # The temporary collection is only used for the lookup by id or name: it doesn't
+                # resolve references, which would reset the reference state of the rule.
+                matches.append(
+                    SigmaCollection([rule], resolve_references=False)[reference.reference]
+                )
             except sigma_exceptions.SigmaRuleNotFoundError:
                 pass
 
